@@ -26,7 +26,9 @@ struct Threaded {
     dir: &'static str,
     dir_slash: &'static str,
     state: Arc<AppState>,          // cache off (size limit 0)
-    state_cached: Arc<AppState>,   // cache on: the second identical request is answered from the cache
+    // cache on: the second identical request is answered from the cache.  One state per route: in a server a uri is
+    // always answered by the same route, so the cache (keyed by uri and host) never sees two routes under one key
+    state_cached: std::sync::Mutex<std::collections::HashMap<String, Arc<AppState>>>,
     unit: Arc<()>,
 }
 
@@ -51,7 +53,7 @@ impl Backend for Threaded {
             dir: d,
             dir_slash: ds,
             state: app_state(false),
-            state_cached: app_state(true),
+            state_cached: Default::default(),
             unit: Arc::new(()),
         }
     }
@@ -68,6 +70,7 @@ impl Backend for Threaded {
                 .with_path_aware_route("/static/*", serve_dir::<()>(dir))
                 .with_route("/*", serve_as_file_path::<()>(dir));
             let _ = app.run(("127.0.0.1", port));
+            common::SERVER_FAILED.store(true, std::sync::atomic::Ordering::SeqCst);
         });
         true
     }
@@ -75,7 +78,10 @@ impl Backend for Threaded {
         match h {
             "serve_dir" => if alt { (self.sd_slash)(req, self.unit.clone(), route) } else { (self.sd)(req, self.unit.clone(), route) },
             "directory" => directory_handler(req, self.state.clone(), if alt { self.dir_slash } else { self.dir }, route, 0),
-            "directory_cached" => directory_handler(req, self.state_cached.clone(), if alt { self.dir_slash } else { self.dir }, route, 0),
+            "directory_cached" => {
+                let st = self.state_cached.lock().unwrap().entry(route.to_string()).or_insert_with(|| app_state(true)).clone();
+                directory_handler(req, st, if alt { self.dir_slash } else { self.dir }, route, 0)
+            }
             "serve_file" => (serve_file::<()>(leak(format!("{}/{}", self.dir, route))))(req, self.unit.clone()),
             _ => if alt { (self.fp_slash)(req, self.unit.clone()) } else { (self.fp)(req, self.unit.clone()) },
         }
